@@ -14,9 +14,10 @@
 """
 import json, os, time
 from lib import tlc, build, tracev
+HERE = os.path.dirname(os.path.dirname(os.path.abspath(__file__)))
 from lib.ctx import MachineryError
 from checks.c11 import plans_from_tlc
-from harness.enc import cases
+from harness.enc import cases, encrun
 
 def model_check_runs(quick):
     """The (M) runs; executed in a thread while the cases run.  -> list of (name, TlcResult, kind)"""
@@ -59,6 +60,76 @@ class Background:
         if self.exc:
             raise self.exc
         return self.out
+
+# ------------------------------------------------------------------------------------------- MicroLZMA limit sweep
+RETN = {0: "OK", 1: "STREAM_END", 5: "MEM_ERROR", 8: "OPTIONS_ERROR", 9: "DATA_ERROR", 10: "BUF_ERROR", 11: "PROG_ERROR"}
+
+def sweep_input(kind, n, rng):
+    if kind == "sixbit":       # moderately compressible: six random bits per byte
+        return bytes(0x30 + rng.getrandbits(6) for _ in range(n))
+    if kind == "nibble":
+        return bytes(0x41 + rng.getrandbits(4) for _ in range(n))
+    return encrun.gen_input(kind, n, rng)
+
+def micro_sweep(quick, plans, seed, exe):
+    """Every output limit in a range, for a few TLC-chosen MicroLZMA configurations -> [(label, events)], pairs.
+    Runs in a background thread (subprocess + glue decoding of sampled limits)."""
+    import random, subprocess
+    from harness.glue import lzma as glzma
+    rng = random.Random(seed * 7919 + 13)
+    cand = [p for p in plans if p["entry"] == "microlzma"]
+    small = [p for p in cand if p.get("dict") in ("4096", "65536", "4097", "98304")]
+    k = 3 if quick else 8
+    rng.shuffle(small)
+    chosen = small[:k] if quick else (small + [p for p in cand if p not in small])[:k]
+    lmax = 4005 if quick else 8005
+    hists = []; pairs = 0
+    for pi, plan in enumerate(chosen):
+        info = encrun.resolve(plan)
+        o = info["opt"]
+        # moderately compressible literals / match-rich data with far distances (direct bits, reps) / the rest by seed
+        kind = ["sixbit", "mixed", ["nibble", "rand"][seed % 2], "text", "sixbit", "mixed", "rand", "nibble"][pi % 8]
+        n = {"sixbit": 16384, "rand": 12288, "nibble": 24576, "mixed": 40000, "text": 120000}[kind]
+        data = sweep_input(kind, n, rng)
+        # (the extreme flag only changes nice_len/depth/mode, which are passed explicitly)
+        hdr = "%d %d %d %d %d %d %d %d %d %d\n" % (len(data), info["preset32"] & 0xF, o.lc, o.lp, o.pb, o.dict_size, o.mf, o.mode,
+                                                  o.nice_len, o.depth)
+        e = dict(os.environ); e.pop("LD_PRELOAD", None)
+        label = "microsweep," + encrun.plan_label(plan) + "/" + kind
+        ev = [{"e": "Reset", "mode": "sweep", "dict": o.dict_size, "preset": [], "presetlen": 0, "inlen": len(data), "lc": o.lc,
+               "lp": o.lp, "pb": o.pb, "eopm": "no", "limited": True, "limit": lmax, "id": label, "enclen": 0, "encdig": ""}]
+        nxt = 6
+        restarts = 0
+        while nxt <= lmax and restarts < 25:
+            p = subprocess.run([exe, str(nxt), str(lmax), "97"], input=hdr.encode() + data, stdout=subprocess.PIPE,
+                               stderr=subprocess.PIPE, env=e, timeout=600)
+            for ln in p.stdout.decode(errors="replace").splitlines():
+                f = ln.split()
+                if len(f) < 9 or f[-1] != "." or not f[0].isdigit() or int(f[0]) != nxt:
+                    break               # incomplete record: the driver died while working on this limit
+                ret, tin, tout, guard, dret, dn, eq = f[1], int(f[2]), int(f[3]), f[4] == "1", f[5], int(f[6]), f[7] == "1"
+                x = {"e": "Limit", "limit": nxt, "ret": RETN.get(int(ret), ret) if ret.lstrip("-").isdigit() else ret, "tin": tin,
+                     "tout": tout, "guard": guard, "libret": RETN.get(int(dret), dret), "liblen": dn, "libeq": eq, "glue": "skip",
+                     "props": -1}
+                if len(f) > 9:
+                    enc = bytes.fromhex(f[8])
+                    x["props"] = (~enc[0]) & 0xFF
+                    r = glzma.decode(b"\x00" + enc[1:], o.lc, o.lp, o.pb, o.dict_size, usize=tin, allow_eopm=False, collect=None)
+                    good = r.status == "ok_size" and r.consumed == len(enc) and r.out == data[:tin]
+                    x["glue"] = "ok" if good else "bad:%s:%d/%d:%d" % (r.status, r.consumed, len(enc), len(r.out))
+                ev.append(x)
+                pairs += 1
+                nxt += 1
+            if nxt <= lmax:
+                # the driver died (assertion / sanitizer / signal) while working on limit `nxt`
+                ev.append({"e": "Limit", "limit": nxt, "ret": "CRASH_%s" % p.returncode, "tin": 0, "tout": 0, "guard": False,
+                           "libret": "", "liblen": 0, "libeq": False, "glue": "skip", "props": -1,
+                           "stderr": p.stderr.decode(errors="replace")[-600:]})
+                pairs += 1
+                nxt += 1
+                restarts += 1
+        hists.append((label, ev))
+    return hists, pairs
 
 def gen_plans(ctx, seeds):
     plans = []
@@ -106,8 +177,16 @@ def run(ctx):
     # big jobs first so that the pool is balanced
     order = sorted(range(len(jobs)), key=lambda k: -jobs[k]["inp"]["n"])
     t = time.time()
-    mc = Background(lambda: model_check_runs(ctx.quick))        # (M) runs overlap with the case execution
-    results = cases.run_all([jobs[k] for k in order], procs=4 if ctx.quick else 6, workdir=ctx.workdir, log=ctx.log)
+    from harness.pydrv import lz
+    lz.load(build.lib("plain")["so"])
+    sweep_exe = build.cprog("c01_microsweep", [os.path.join(HERE, "harness/cdrv/c01_microsweep.c")], "plain", internal=False)
+    bg = {}
+    def start_background():     # (M) runs and the MicroLZMA limit sweep overlap with the case execution
+        bg["mc"] = Background(lambda: model_check_runs(ctx.quick))
+        bg["sweep"] = Background(lambda: micro_sweep(ctx.quick, plans, ctx.seed, sweep_exe))
+    results = cases.run_all([jobs[k] for k in order], procs=4 if ctx.quick else 6, workdir=ctx.workdir, log=ctx.log,
+                            after_spawn=start_background)
+    mc = bg["mc"]
     ctx.log("executed %d cases (%d encoder runs) in %.1fs" % (len(results), sum(r["encs"] for r in results), time.time() - t))
     model_check_apply(ctx, mc.result())
     l1, l2 = [], []
@@ -124,6 +203,12 @@ def run(ctx):
         for label, fmt, evs in r["lz"]:
             (l1 if fmt == "lzma1" else l2).append((label, evs))
     ctx.extra["bias_runs"] = nb
+    sweeps, pairs = bg["sweep"].result()
+    ctx.extra["microlzma_limit_pairs"] = pairs
+    for label, evs in sweeps:
+        ctx.case(key=("sweep", label, len(evs)))
+    l1 = l1 + sweeps
+    ctx.log("MicroLZMA limit sweep: %d configurations, %d (input, limit) pairs" % (len(sweeps), pairs))
     for mod, hs in (("TraceEncLz", l1), ("TraceEncLzma2", l2)):
         if not hs:
             continue
